@@ -89,6 +89,28 @@ namespace CDNS {
         explicit BlockTable() {}
 
         /**
+         * @brief Copy constructor. The index is rebuilt so that its keys refer to the copied items.
+         */
+        BlockTable(const BlockTable& copy) : items_(copy.items_)
+        {
+            rebuild_indexes();
+        }
+
+        /**
+         * @brief Assignment operator. The index is rebuilt so that its keys refer to the copied items.
+         */
+        BlockTable& operator=(const BlockTable& rhs)
+        {
+            if ( this != &rhs )
+            {
+                indexes_.clear();
+                items_ = rhs.items_;
+                rebuild_indexes();
+            }
+            return *this;
+        }
+
+        /**
          * @brief Find if a key value is in the list
          * 
          * @param key the key value to search for.
@@ -220,6 +242,17 @@ namespace CDNS {
             res -= 1;
             indexes_[KeyRef<K>(items_.back().key())] = res;
             return res;
+        }
+
+        /**
+         * @brief Rebuild the index from the stored items.
+         */
+        void rebuild_indexes()
+        {
+            indexes_.clear();
+            CDNS::index_t pos = 0;
+            for ( const auto& item : items_ )
+                indexes_[KeyRef<K>(item.key())] = pos++;
         }
 
         std::deque<T> items_;
